@@ -12,6 +12,7 @@ error at that want, with every statement up to it run and none after it.
 import itertools
 import json
 
+from harness.common import Sym
 from harness import common, gendoc, runmodel
 
 
@@ -150,7 +151,90 @@ def expectation_problem(c, impl, ex):
     return None
 
 
+
+# ---------------------------------------------------------------------------
+# checker.check_got_vs_want at unit level, under every flag setting
+# ---------------------------------------------------------------------------
+GVW_NAMES = ['ELLIPSIS', 'NORMALIZE_WHITESPACE', 'IGNORE_WHITESPACE', 'NORMALIZE_REPR', 'DONT_ACCEPT_BLANKLINE']
+
+
+class _Repr:
+    def __init__(self, text):
+        self.text = text
+
+    def __repr__(self):
+        return self.text
+
+
+class _BadRepr:
+    def __repr__(self):
+        raise RuntimeError('no repr')
+
+
+def _gvw_impl(want, out, ev, i):
+    from xdoctest import checker, constants, directive
+    rs = directive.RuntimeState({n: bool((i >> k) & 1) for k, n in enumerate(GVW_NAMES)})
+    val = constants.NOT_EVALED if ev is None else (_BadRepr() if ev is False else _Repr(ev))
+    try:
+        return 'ok' if checker.check_got_vs_want(want, out, val, rs) else 'gotwant'
+    except checker.GotWantException:
+        return 'gotwant'
+    except checker.ExtractGotReprException:
+        return 'extractrepr'
+    except Exception as e:
+        return 'raised:' + type(e).__name__
+
+
+def _gvw_worker(triples):
+    reqs, impl = [], []
+    for want, out, ev in triples:
+        for i in range(32):
+            fl = [bool((i >> k) & 1) for k in range(5)] + [False, False]
+            mev = Sym('notevaled') if ev is None else (Sym('reprraises') if ev is False else [Sym('repr'), ev])
+            reqs.append(('check_got_vs_want', fl, want, out, mev))
+            impl.append(_gvw_impl(want, out, ev, i))
+    return impl, [str(a) for a in common.model_batch(reqs)]
+
+
+def gvw_unit(ctx):
+    """(want, stdout, value) triples x 32 flag settings: implementation vs model, and -- independent of the model --
+    every comparison made for one call must be made under the SAME flags: with ELLIPSIS off, renaming the marker
+    '...' to 'ZZZ' everywhere must not change the answer; with it on, a want that is only the marker accepts"""
+    rng = ctx.rng('gvw')
+    texts = ['', 'a', 'a b', 'a  b', 'a...b', '...', 'a x b', 'a\nb', 'a\n\nb', 'a\n<BLANKLINE>\nb', "'a'", "u'a'", 'b b b', 'a bab b', 'a ... b', 'a b ']
+    triples = []
+    for want in texts[1:]:
+        for out in texts:
+            for ev in (None, False, 'a', 'a x b', 'a bab b', "'a'", 'a  b', '...'):
+                if rng.random() < (0.25 if ctx.tier == 'quick' else 1.0):
+                    triples.append((want, out, ev))
+    chunks = [triples[i:i + 60] for i in range(0, len(triples), 60)]
+    found = []
+    for ch, (impl, model) in zip(chunks, common.pmap(_gvw_worker, chunks)):
+        for n, (want, out, ev) in enumerate(ch):
+            for i in range(32):
+                ctx.evaluations += 1
+                a, m = impl[n * 32 + i], model[n * 32 + i]
+                ctx.count('gvw:' + a)
+                problem = None
+                if not (i & 1) and '...' in (want + out + str(ev)):
+                    ren = lambda t: t.replace('...', 'ZZZ') if isinstance(t, str) else t
+                    b = _gvw_impl(ren(want), ren(out), ren(ev), i)
+                    if a != b:
+                        problem = "with ELLIPSIS off the marker '...' is not an ordinary text: the answer %s becomes %s when it is renamed" % (a, b)
+                if a != m or problem:
+                    found.append((0 if problem else 1, {'what': problem or 'check_got_vs_want = %s, model %s' % (a, m), 'want': want, 'stdout': out,
+                                  'value_repr': ev, 'flags': {nme: bool((i >> k) & 1) for k, nme in enumerate(GVW_NAMES)},
+                                  'theorem_or_correspondence': 'correspondence check_got_vs_want (feeds C02_want_iff; all comparisons of one part under that part\'s flags)'},
+                                  bool(problem)))
+    found.sort(key=lambda x: x[0])        # inputs on which the property itself fails first
+    for _, payload, has_input in found[:5]:
+        ctx.violation('gvw-unit', payload, has_input)
+    ctx.add_rule('check_got_vs_want on %d (want, stdout, value) triples (value absent / with a repr / whose repr raises) x 32 flag settings vs the model; marker renaming with ELLIPSIS off' % len(triples))
+
+
 def run(ctx):
+    gvw_unit(ctx)
     cases = build_cases(ctx)
     chunks = [cases[i:i + 200] for i in range(0, len(cases), 200)]
     results = [r for ch in common.pmap(_worker, chunks) for r in ch]
@@ -188,8 +272,26 @@ def run(ctx):
                         'helper functions t/pr/tn are placed in the doctest namespace by the harness']
 
 
+def replay_gvw(d, path, pid):
+    want, out, ev = d['want'], d['stdout'], d['value_repr']
+    i = sum((1 << k) for k, n in enumerate(GVW_NAMES) if d['flags'].get(n))
+    a = _gvw_impl(want, out, ev, i)
+    fl = [bool((i >> k) & 1) for k in range(5)] + [False, False]
+    mev = Sym('notevaled') if ev is None else (Sym('reprraises') if ev is False else [Sym('repr'), ev])
+    m = str(common.model_call('check_got_vs_want', fl, want, out, mev))
+    ren = lambda t: t.replace('...', 'ZZZ') if isinstance(t, str) else t
+    b = _gvw_impl(ren(want), ren(out), ren(ev), i) if not (i & 1) else a
+    print('want=%r stdout=%r value=%r flags=%r: impl=%s model=%s renamed=%s' % (want, out, ev, d['flags'], a, m, b))
+    if a != m or a != b:
+        print('VIOLATION property=%s replay=%s' % (pid, path))
+        return 1
+    return 0
+
+
 def replay(path):
     d = json.load(open(path))
+    if d.get('kind') == 'gvw-unit':
+        return replay_gvw(d, path, 'C02')
     doc = d.get('doctest')
     res = runmodel.run_both_many([dict(doc=doc, prelude=gendoc.PRELUDE)])
     impl, model, df, ex = res[0]
